@@ -11,7 +11,9 @@ import ast
 from .astutil import walk_no_nested, dump, kwargs_of, field_of
 
 INT8, SAFE, PARAM, UNKNOWN = "int8", "safe", "param", "unknown"
-CONTRACT_FUNCS = {"numpy.einsum", "numpy.dot", "numpy.matmul", "numpy.tensordot", "numpy.inner", "numpy.vdot", "numpy.add.reduce"}
+# numpy.add.reduce / numpy.sum promote small integers to the platform integer (ufunc.reduce: "for add and multiply ... the default platform integer is used"); the
+# contraction functions below do not
+CONTRACT_FUNCS = {"numpy.einsum", "numpy.dot", "numpy.matmul", "numpy.tensordot", "numpy.inner", "numpy.vdot"}
 GENO_PARAM_HINT = ("gmat", "pgmat", "gtobj", "geno", "gtmat")
 
 
